@@ -157,6 +157,18 @@ def chunk(item):
     return out
 
 
+def history_task(item):
+    """Call history across curves in ONE fresh process: serve every case of universe A, then check every case of universe B."""
+    keyA, keyB, gorder = item
+    gA, UA, elsA, *_ = get_universe(keyA)
+    chunk((keyA, 0, len(elsA), gorder))
+    gB, UB, elsB, *_ = get_universe(keyB)
+    r = chunk((keyB, 0, len(elsB), gorder))
+    for tag, v in r['viols']:
+        v['after'] = keyA[0]
+    return r
+
+
 def vector_task(key):
     """evaluate_vector == vector of evaluate (bitwise) on every level mesh of the universe."""
     g, U, els, orc, SL0 = get_universe(key)
@@ -261,6 +273,16 @@ def run(ctx):
             cc[1] = max(cc[1], mx)
         for tag, v in r['viols']:
             ctx.violation({'tag': tag, 'curve': v['curve'], 'fn': v['fn']}, '{}: {}'.format(tag, v), v)
+    hk = [(c, (0., 1.), 0, 1) for c in CURVES]
+    hitems = [(a, b, 5) for a in hk for b in hk if a != b]
+    resH = common.pmap_fresh(history_task, hitems, ctx.jobs)
+    nH = 0
+    for it, r in zip(hitems, resH):
+        nH += r['n']
+        for tag, v in r['viols']:
+            ctx.violation({'tag': 'history:' + tag, 'curve': v['curve'], 'fn': v['fn'], 'after': it[0][0]},
+                          '{} in a process that served {} before: {}'.format(tag, it[0][0], v), v)
+    n += nH
     resV = pmap(vector_task, UNIV[ctx.tier], ctx.jobs, chunksize=1)
     nv = 0
     for (cnt, viols) in resV:
@@ -288,7 +310,7 @@ def run(ctx):
     cov = {'evaluations': n + nv + ni, 'distinct_nontrivial': n + ni,
            'rule': 'one case = (trial element, time, point, function) of the alphabets, or (test, trial) pair for the integral clause; distinct by construction',
            'universe_elements': sizes, 'class_count_and_worst_relative_error': {k: [v[0], float('%.3g' % v[1])] for k, v in sorted(classes.items())},
-           'evaluate_vector_entries_bitwise': nv, 'integral_pairs': ni, 'integral_worst_fraction_of_allowed': worstI,
+           'evaluate_vector_entries_bitwise': nv, 'cross_curve_histories_in_fresh_processes': len(hitems), 'history_evaluations': nH, 'integral_pairs': ni, 'integral_worst_fraction_of_allowed': worstI,
            'gauss_order_of_foreign_nodes': gorder,
            'samples': [{'trial': [[0.0, 1.0], [0.0, 0.5]], 't': 0.015625, 'x_hat': 0.505, 'class': 'far'},
                        {'trial': [[0.0, 1.0], [3.5, 4.0]], 't': 1.0, 'x_hat': 0.0, 'class': 'closed (through the seam)'}],
